@@ -14,6 +14,15 @@ let run () =
     | "PWV" :: steps :: st :: bad ->
         let ((p, (n1, r1)), l) = pwv_run (nat_of_int (int_of_string steps)) (z st) (List.map z bad) in
         Printf.printf "pwv %d | %d %d | %d%s\n" (int_of_z p) (int_of_nat n1) (int_of_z r1) (List.length l) (String.concat "" (List.map (fun x -> " " ^ string_of_int (int_of_z x)) l))
+    | "DCS" :: st :: tg :: rest ->
+        let rec split acc = function "|" :: t -> (List.rev acc, t) | x :: t -> split (x :: acc) t | [] -> (List.rev acc, []) in
+        let (bad, cands) = split [] rest in
+        let rec pairs = function u :: n :: t -> (z u, nat_of_int (int_of_string n)) :: pairs t | _ -> [] in
+        (match pairs cands with
+         | first :: more ->
+             let ((u, n), d) = dcs_run (z st) (z tg) (List.map z bad) first more in
+             Printf.printf "dcs %d %d %d\n" (int_of_z u) (int_of_nat n) (int_of_z d)
+         | [] -> print_endline "dcs ?")
     | ["STATUS"; c; h; bf; af; ap; d] -> status := z c; has := b h; before := z bf; after := z af; approx := b ap; diff := z d; seen := true
     | "NSTATES" :: n :: _ -> nst := z n
     | ["START"; s] -> start := b s
